@@ -780,5 +780,26 @@ query = `patch` with full ops; answer = verdict + length and FNV hash of the byt
             }
         }
     }
+    // an output that takes NO bytes (`/dev/full`: every write fails with ENOSPC): `copia patch` must not report success, whatever the
+    // number of ops (D19: with a single op the failed write was never noticed — the file sink writes in the background and
+    // reports the failure on the next operation, and there was none)
+    if let Some(c) = cli.as_ref() {
+        if std::path::Path::new("/dev/full").exists() {
+            for k in 0..4 {
+                let basis = if k == 1 { Vec::new() } else { rng.bytes(4096) };
+                let src = match k { 0 => basis.clone(), 1 => rng.bytes(100), 2 => { let mut s_ = basis.clone(); s_.extend(rng.bytes(9)); s_ }, _ => rng.bytes(3000) };
+                let sig = Signature::generate(&mut Cursor::new(&basis), 1024).expect("sig");
+                let d = CopiaSync::new().delta(Cursor::new(&src), &sig).expect("delta");
+                let f = |n: &str| c.dir.join(n).to_string_lossy().into_owned();
+                std::fs::write(f("b"), &basis).ok();
+                std::fs::write(f("d"), bincode::serialize(&d).expect("ser")).ok();
+                let (code, _err) = c.run(&["patch", &f("b"), &f("d"), "-o", "/dev/full"]);
+                w.count("cli-patch-full-disk");
+                if code == Some(0) {
+                    w.fail(0, "cli-success-on-failed-output", &format!("copia patch exit 0 although every write to its output failed (ENOSPC); delta with {} op(s)", d.ops.len()));
+                }
+            }
+        }
+    }
     let _ = fxhash;
 }
